@@ -33,5 +33,6 @@ SPEC = {
     "min_distinct": 40,
     "min_counters": {"transmissions_terminated": 5000, "pages_checked": 5000, "page_events": 5000, "erase_updates": 300,
                      "noerase_updates": 300, "wildcard_fetches": 5000, "flof_pages_checked": 300, "charset_codes_checked": 96 * 20,
-                     "networks_serial": 100, "networks_parallel": 100, "final_sweep_pages": 2000},
+                     "networks_serial": 100, "networks_parallel": 100, "networks_header_without_page_number": 100,
+                     "networks_page_number_flush_against_clock": 100, "final_sweep_pages": 2000},
 }
